@@ -255,7 +255,6 @@ func replayTree(r *core.Run, raw json.RawMessage) bool {
 	return len(fs) > 0
 }
 
-
 // layouts: leaves placed explicitly. A struct or an array of three fields, each read
 // inside its own range(off, w) window with (off, w) from a grid over a 5 byte input, in
 // every combination (equal and unequal sizes, contiguous, spaced, overlapping, out of
